@@ -469,6 +469,26 @@ func TestVerifC15(t *testing.T) {
 				if g, _ := toRef(objs[i]); !g.Eq(shadow[i]) {
 					r.Violation("walk:object-differs-from-shadow", hk.D{"history": hist, "object": i, "got": ptHex(g), "want": ptHex(shadow[i])})
 					shadow[i] = g // resynchronise so that one defect is reported once per walk
+					continue
+				}
+				// ... and through the public conversions (which may keep derived state of their own in the object)
+				var want []byte
+				if shadow[i].Inf {
+					want = []byte{0}
+				} else {
+					want = append([]byte{4}, append(ref.B32(shadow[i].X), ref.B32(shadow[i].Y)...)...)
+				}
+				var gotB, gotU []byte
+				var gx *big.Int
+				p, msg, _, _ := hk.Try(func() {
+					gotB, gotU = objs[i].Bytes(), objs[i].Bytes_Unsafe()
+					if !shadow[i].Inf {
+						gx = objs[i].GetAffineX()
+					}
+				})
+				if p || !bytes.Equal(gotB, want) || !bytes.Equal(gotU, want) || (gx != nil && gx.Cmp(shadow[i].X) != 0) {
+					r.Violation("walk:conversion-wrong-on-long-lived-point", hk.D{"history": hist, "object": i, "bytes": hk.Hex(gotB), "bytes_unsafe": hk.Hex(gotU), "want": hk.Hex(want), "panic": msg})
+					objs[i] = fromRef(shadow[i], lambdas(lr))
 				}
 			}
 		}
@@ -569,6 +589,22 @@ func TestVerifC15(t *testing.T) {
 			found++
 			encs = append(encs, enc{append([]byte{4}, append(ref.B32(new(big.Int).Add(P.X, ref.SM2P)), ref.B32(P.Y)...)...), "x+p-anywhere"})
 		}
+	}
+	// the coordinates of VALID points in containers other than the two the statement allows: bare X||Y (64 bytes),
+	// 04||X, X alone, 04||X||Y||00, 00||04||X||Y, a doubled prefix
+	for q := 0; q < hk.N(6, 40); q++ {
+		P := ref.BaseMulFast(randScalarI(rng))
+		x, y := ref.B32(P.X), ref.B32(P.Y)
+		cat := func(parts ...[]byte) []byte {
+			var o []byte
+			for _, p := range parts {
+				o = append(o, p...)
+			}
+			return o
+		}
+		encs = append(encs, enc{cat(x, y), "valid-coordinates-without-prefix(64)"}, enc{cat([]byte{4}, x), "prefix+x-only(33)"}, enc{x, "x-only(32)"},
+			enc{cat([]byte{4}, x, y, []byte{0}), "valid-encoding+trailing-byte(66)"}, enc{cat([]byte{0, 4}, x, y), "leading-zero+valid-encoding(66)"},
+			enc{cat([]byte{4, 4}, x, y), "doubled-prefix(66)"}, enc{cat([]byte{6}, x, y), "hybrid-prefix-06"}, enc{cat([]byte{7}, x, y), "hybrid-prefix-07"})
 	}
 	// off-curve points whose curve-equation defect sits in one limb / one byte of the plain or internal representation
 	for _, np := range ref.NearCurvePoints(rng.Bytes, hk.N(2, 10)) {
